@@ -28,8 +28,39 @@ def plan(tier, seed):
     return [{"part": i, "parts": n, "seed": seed, "tier": tier, "count": max(1, total // n)} for i in range(n)]
 
 
+def gen_top_prog(rnd):
+    """Code that never mentions its labels by value, linked so high that it runs past 0o177777: the labels beyond keep their
+    arithmetic values (200002 ...), in the image and in the listing alike."""
+    from vlib import apm
+    nfiles = rnd.choice([1, 2, 3])
+    files = []
+    for i in range(nfiles):
+        stmts = []
+        for j in range(rnd.randrange(2, 6)):
+            stmts.append(apm.label(f"t{i}l{j}"))
+            for _ in range(rnd.randrange(0, 4)):
+                stmts.append(rnd.choice([apm.insn("nop"), apm.insn("clr", ("reg", rnd.randrange(6))), apm.data(".word", apm.num(rnd.randrange(0x10000))),
+                                         apm.blk(".blkb", apm.num(2 * rnd.randrange(0, 9))), apm.insn("mov", ("imm", apm.num(rnd.randrange(100))), ("reg", 1))]))
+            if rnd.random() < 0.4:
+                stmts.append(apm.assign(f"t{i}k{j}", apm.num(rnd.choice([0, 5, -1, 0o200000, 0o177777, 0o200002, 1 << 20]))))
+        files.append(apm.SrcFile(f"top{i}.mac", stmts))
+    f = rnd.choice(files)
+    f.stmts.insert(rnd.randrange(len(f.stmts) + 1), apm.link(apm.num(0o200000 - 2 * rnd.randrange(1, 12))))
+    prog = apm.Program(files)
+    apm.PAST_END_OK = True
+    try:
+        ref = apm.Ref(prog).run()
+    except (apm.RefError, apm.Unmodelled):
+        return None
+    finally:
+        apm.PAST_END_OK = False
+    return prog, ref
+
+
 def gen_prog(rnd):
     from vlib import apm, clicase
+    if rnd.random() < 0.15:
+        return gen_top_prog(rnd)
     host = clicase.build_host(rnd, nfiles=rnd.choice([1, 2, 3]), include=rnd.random() < 0.4, nstmt=rnd.randrange(2, 10))
     prog = host["prog"]
     # extra constants of any value; names that differ only in case across files
@@ -59,6 +90,16 @@ def gen_prog(rnd):
             inc = apm.include("once7.mac")
             inc.spell = spell              # another spelling of the same path is the same file
             hf.stmts.append(inc)
+    if rnd.random() < 0.25:
+        # linked so high that the image runs past the end of the address space: labels beyond it keep their arithmetic value (200002 ...)
+        for f in prog.files:
+            for s in f.stmts:
+                if s.k == "link":
+                    s.expr = apm.num(rnd.choice([0o177760, 0o177774, 0o177000, 0o177776, 0o177400]))
+                    break
+            else:
+                continue
+            break
     try:
         ref = apm.Ref(prog).run()
     except (apm.RefError, apm.Unmodelled):
@@ -183,7 +224,11 @@ def run_case(case, cnt=None, root=None):
         else:
             main.stmts.append(apm.simple("make_bin", '"mk.bin"'))
             argv_sel = ["-o", "image.bin"]; candidates = [["mk.lst"], ["image.lst"]]
-        ref = apm.Ref(prog).run()
+        apm.PAST_END_OK = prog.files[0].name.startswith("top")
+        try:
+            ref = apm.Ref(prog).run()
+        finally:
+            apm.PAST_END_OK = False
         texts = refcheck.render_all(prog)
         refcheck.materialise(prog, texts, work)
         for f in prog.files:
@@ -240,6 +285,8 @@ def run_case(case, cnt=None, root=None):
                 except ValueError:
                     viol(f"{label}: value field {vt!r} of '{n}' is not octal")
                     continue
+                if v > 0o177777:
+                    cnt["listed_values_beyond_64k"] = cnt.get("listed_values_beyond_64k", 0) + 1
                 if v != want[n]:
                     viol(f"{label}: '{n}' of {base} listed as {vt} (= {v}), its value is {want[n]} ({want[n]:o} octal)")
                 if not re.match(r"^-?[0-7]{6,}$", vt):
